@@ -7,6 +7,7 @@ static void ghosts(void) {
   g_k = nondet_size(); g_j = nondet_size(); g_lm1 = nondet_size(); g_lm2 = nondet_size(); g_lm3 = nondet_size();
   g_cwd_id = nondet_size(); g_cwd_len = nondet_size(); g_prev_cwd_id = nondet_size();
   g_chdir_calls = 0; g_getcwd_calls = 0; g_cwdbuf = 0; g_thrown = 0;
+  g_exists = nondet_bool(); g_isdir = nondet_bool();
 }
 /* an arbitrary string of arbitrary length */
 static void mkstr(struct Str *s, size_t minlen) {
@@ -118,3 +119,4 @@ void h_DV_empty(void) {
   __CPROVER_assert(g_cwd_id == cwd0 && g_chdir_calls == 0, "C18 a DirectoryVisitor without a directory leaves the working directory alone");
   CANARY;
 }
+void h_listChildren(void) { struct Path p; struct PathList r; mkstr(&p.m_path, 0); Path__listChildren(&p, &r); CANARY; }
